@@ -19,6 +19,8 @@ import (
 	"fmt"
 	"os"
 	"path/filepath"
+
+	"github.com/versity/versitygw/internal/verifhook"
 )
 
 // SideCar is a metadata storer that uses sidecar files to store metadata.
@@ -79,6 +81,7 @@ func (s SideCar) StoreAttribute(_ *os.File, bucket, object, attribute string, va
 		return fmt.Errorf("failed to write attribute: %v", err)
 	}
 
+	verifhook.Point("sidecar.afterStore")
 	return nil
 }
 
